@@ -15,6 +15,12 @@ BLIND = {  # did the owning check exist, unchanged, before the change was seen?
     'a1-C01': 'no (C15/C01 checks written later)', 'a1-C02': 'no', 'a1-C03': 'no', 'a1-C04': 'no', 'a1-C05': 'no', 'a1-C09': 'no',
     'a2-C08': 'no', 'a2-C10': 'no', 'a2-C11': 'no', 'a2-C13': 'no', 'a2-C15': 'no', 'a2-C16': 'C14.R2 yes / C16 no',
     'b3-C12': 'yes - MISSED, then fixed', 'b3-C14': 'yes - caught', 'b3-C17': 'yes - MISSED, then fixed',
+    'b4-C02': 'yes - MISSED (no rule covered the consumer translation of mixed [op, -1] lists), then fixed: C02.R5 decision table',
+    'b4-C03': 'yes - MISSED (support check exercised only for * rules), then fixed: fcBad row in C11.R3 store lattice',
+    'b4-C04': 'yes - ANALYSIS-ERROR (anchor vanished), then C04.R6 routing table decides it',
+    'b4-C05': 'yes - caught by a shape accident, rule rewritten (C05.R2 dtype typestate)',
+    'b4-C15': 'yes - MISSED by C15 (C03.R3 reported it), then fixed: C15.R1 unfiltered group, C15.R7',
+    'b4-C16': 'yes - ANALYSIS-ERROR (idiom unknown, not decided); then C16.R6 layout table decides it (patch rebased on fix 7888e06)',
     'b3-C18': 'yes (written minutes before) - MISSED, then fixed', 'b3-C19': 'yes - caught by C10.R2 only, C19.R8 added', 'b3-C01': 'yes - MISSED (declared blind spot), then fixed',
 }
 
